@@ -72,12 +72,13 @@ def insn_bounds(data):
 
 
 class Shape:
-    def __init__(self, kind="plain", funcs=True, cfi="none", ann="none", data_follows=False, callee2=False):
+    def __init__(self, kind="plain", funcs=True, cfi="none", ann="none", data_follows=False, callee2=False, bare_b1=False):
         self.kind, self.funcs, self.cfi, self.ann, self.data_follows, self.callee2 = kind, funcs, cfi, ann, data_follows, callee2
+        self.bare_b1 = bare_b1          # b1 carries no label of its own (labels reach it only by sliding from a deleted neighbour)
 
     def __repr__(self):
         return "shape(kind=%s funcs=%s cfi=%s ann=%s%s%s)" % (self.kind, self.funcs, self.cfi, self.ann, " data" if self.data_follows else "",
-                                                             " callee-of-two-blocks" if self.callee2 else "")
+                                                             (" callee-of-two-blocks" if self.callee2 else "") + (" b1-without-labels" if self.bare_b1 else ""))
 
 
 def build(shape):
@@ -90,11 +91,12 @@ def build(shape):
     g1 = add_code_block(bi, b"\x90" if shape.callee2 else b"\xc3")
     g2 = add_code_block(bi, b"\xc3") if shape.callee2 else None
     s0 = add_symbol(m, "f", b0)
-    add_symbol(m, "L1", b1)
     s2 = add_symbol(m, "L2", b2)
     sg = add_symbol(m, "g", g1)
-    e1 = add_symbol(m, "E1", b1)
-    e1.at_end = True
+    if not shape.bare_b1:
+        add_symbol(m, "L1", b1)
+        e1 = add_symbol(m, "E1", b1)
+        e1.at_end = True
     add_edge(ir.cfg, b0, b1, gtirb.EdgeType.Fallthrough)
     if term is None:
         add_edge(ir.cfg, b1, b2, gtirb.EdgeType.Fallthrough)
